@@ -74,11 +74,11 @@ class Reck:
         unitary = np.flip(circuit.U, axis=(0, 1))
         phase_map, end_phases = reck_decomposition(unitary)
         phase_map = {
-            k: (v + self.error_model.get_phase_offset()) % (2 * np.pi)
+            k: _wrap_phase(v + self.error_model.get_phase_offset())
             for k, v in phase_map.items()
         }
         end_phases = [
-            (p + self.error_model.get_phase_offset()) % (2 * np.pi)
+            _wrap_phase(p + self.error_model.get_phase_offset())
             for p in end_phases
         ]
 
@@ -116,3 +116,12 @@ class Reck:
             mapped_circuit.herald(heralds["input"][m1], m1, m2)
 
         return mapped_circuit
+
+
+def _wrap_phase(phase: float) -> float:
+    """
+    Wraps a phase into the range [0, 2*pi). The modulo of a very small negative
+    float is rounded up to exactly 2*pi, so this is mapped back to 0.
+    """
+    phase = phase % (2 * np.pi)
+    return phase if phase < 2 * np.pi else 0.0
